@@ -49,23 +49,25 @@ def parseModSrc (ts : List String) : Option ModSrc :=
     let (ag, r5) ← takeGroups 'A' 1 r4
     let (vg, r6) ← takeGroups 'V' 1 r5
     let (rg, r7) ← takeGroups 'R' 1 r6
-    let (gg, _) ← takeGroups 'G' 1 r7
+    let (gg, r8) ← takeGroups 'G' 1 r7
+    let (bg, r9) ← takeGroups 'B' 1 r8
+    let (xg, r10) ← takeGroups 'X' 2 r9
+    let (yg, _) ← takeGroups 'Y' 2 r10
+    let faults : List (Stage × Nat) := xg.filterMap fun x =>
+      let stage : Option Stage := match x.getD 0 "" with
+        | "syntax" => some .syntax | "late" => some .late | "impl" => some .impl
+        | "compile" => some .compile | "unres" => some .unres | _ => none
+      match stage, (x.getD 1 "").toNat? with
+      | some sg, some n => some (sg, n)
+      | _, _ => none
     pure { name := bs name, rev := dash rev, ns := bs ns, hasData := hd == "1", hasGrp := hg == "1",
            feats := featSrcs fg, subs := subs,
            imports := ig.map (fun x => (bs (x.getD 0 ""), dash (x.getD 1 "-"))),
            augments := ag.map (fun x => bs (x.getD 0 "")), deviations := vg.map (fun x => bs (x.getD 0 "")),
-           lrefs := rg.map (fun x => bs (x.getD 0 "")), usesGrp := gg.map (fun x => bs (x.getD 0 "")) }
+           lrefs := rg.map (fun x => bs (x.getD 0 "")), usesGrp := gg.map (fun x => bs (x.getD 0 "")),
+           idBase := bg.map (fun x => bs (x.getD 0 "")), faults := faults,
+           badAmend := yg.filterMap fun x => (x.getD 1 "").toNat?.map fun n => (bs (x.getD 0 ""), n) }
   | _ => none
-
-def parseFault : List String → Flt
-  | "X" :: st :: m :: rc :: _ =>
-    let stage : Option Stage := match st with
-      | "syntax" => some .syntax | "late" => some .late | "impl" => some .impl
-      | "compile" => some .compile | "unres" => some .unres | _ => none
-    match stage, rc.toNat? with
-    | some sg, some n => fun s' name => if s' == sg && name == bs m then some n else none
-    | _, _ => noFault
-  | _ => noFault
 
 def hexDigit (n : Nat) : Char := Hex.digit n
 def hex32 (v : BitVec 32) : String :=
@@ -73,11 +75,15 @@ def hex32 (v : BitVec 32) : String :=
 
 structure St where
   ctx : Ctx := {}
-  classes : List (MKey × List Desc) := []
+  classes : List (MKey × List (Desc × List MKey)) := []
   data : List (Bytes × Nat × Bool) := []
   out : List String := []
 
-def classOf (st : St) (k : MKey) (d : Desc) : St × Nat :=
+/-- modules of the context with an identity derived from an identity of `k` (the print of `k` lists them) -/
+def derivedOf (c : Ctx) (k : MKey) : List MKey :=
+  (c.mods.filter fun m => m.src.idBase.any fun n => m.impKey n == some k).map (·.key)
+
+def classOf (st : St) (k : MKey) (d : Desc × List MKey) : St × Nat :=
   match st.classes.find? (fun e => e.1 == k) with
   | some (_, ds) =>
     let i := ds.findIdx (· == d)
@@ -92,7 +98,7 @@ def snapshot (st : St) (rc : Nat) : St :=
   let (st1, parts) := st.ctx.mods.foldl (fun (acc : St × List String) m =>
     let (s0, ps) := acc
     let (s1, c) : St × String := match m.implemented, m.compiled with
-      | true, some (_, d) => let (s1, i) := classOf s0 m.key d; (s1, "c" ++ toString i)
+      | true, some (_, d) => let (s1, i) := classOf s0 m.key (d, derivedOf st.ctx m.key); (s1, "c" ++ toString i)
       | _, _ => (s0, "c-")
     (s1, ps ++ [str m.src.name ++ "@" ++ (if m.src.rev.isEmpty then "-" else str m.src.rev) ++ ":I" ++ (if m.implemented then "1" else "0")
       ++ ":L" ++ String.singleton (hexDigit m.latest.toNat) ++ ":" ++ featStr m ++ ":" ++ c])) (st, [])
@@ -112,25 +118,24 @@ def rcOf (r : Except Nat Unit) : Nat := match r with | .ok _ => 0 | .error e => 
 
 def step (st : St) (ts : List String) : Option St :=
   match ts with
-  | "P" :: idx :: f :: rest => do
-    let i ← idx.toNat?
-    let src ← st.ctx.repo[i]?
-    let (r, c) := run st.ctx (.parse src (parseFeatArg f)) (parseFault rest)
+  | "P" :: name :: rev :: f :: _ => do
+    let src ← st.ctx.repo.find? (fun m => m.name == bs name && m.rev == dash rev)
+    let (r, c) := run st.ctx (.parse src (parseFeatArg f))
     pure (snapshot { st with ctx := c } (rcOf r))
-  | "L" :: name :: rev :: f :: rest =>
-    let (r, c) := run st.ctx (.load (bs name) (if rev == "-" then none else some (bs rev)) (parseFeatArg f)) (parseFault rest)
+  | "L" :: name :: rev :: f :: _ =>
+    let (r, c) := run st.ctx (.load (bs name) (if rev == "-" then none else some (bs rev)) (parseFeatArg f))
     pure (snapshot { st with ctx := c } (if rcOf r == 0 then 0 else 1))
-  | "I" :: name :: rev :: f :: rest =>
-    let (r, c) := run st.ctx (.setImpl (bs name, dash rev) (parseFeatArg f)) (parseFault rest)
+  | "I" :: name :: rev :: f :: _ =>
+    let (r, c) := run st.ctx (.setImpl (bs name, dash rev) (parseFeatArg f))
     pure (snapshot { st with ctx := c } (rcOf r))
-  | "C" :: rest =>
-    let (r, c) := run st.ctx .compile (parseFault rest)
+  | "C" :: _ =>
+    let (r, c) := run st.ctx .compile
     pure (snapshot { st with ctx := c } (rcOf r))
-  | "O" :: pm :: bits :: rest => do
+  | "O" :: pm :: bits :: _ => do
     let n ← bits.toNat?
     let ex := n &&& 128 != 0
     let pp := n &&& 64 != 0
-    let (r, c) := run st.ctx (if pm == "+" then .setOpt ex pp else .unsetOpt ex pp) (parseFault rest)
+    let (r, c) := run st.ctx (if pm == "+" then .setOpt ex pp else .unsetOpt ex pp)
     pure (snapshot { st with ctx := c } (rcOf r))
   | "D" :: name :: _ =>
     match st.ctx.getImplemented (bs name) with
@@ -155,7 +160,9 @@ def history (spec : String) : String :=
       | "T" :: _ => some st
       | "M" :: rest =>
         match parseModSrc rest with
-        | some src => some { st with ctx := { st.ctx with repo := st.ctx.repo ++ [src] } }
+        | some src =>
+          -- a later source of the same name and revision replaces the earlier one (the file was edited)
+          some { st with ctx := { st.ctx with repo := (st.ctx.repo.filter fun m => !(m.name == src.name && m.rev == src.rev)) ++ [src] } }
         | none => none
       | "S" :: _ => some st
       | _ => step st ts) (some {})
